@@ -24,6 +24,22 @@ CLAIMED = {
             "form never changes' as an invariant of the reference model; the same states, rendered by TLC, are run through the real function "
             "(12 calls per spelling) and the trace spec requires the observed output register to stay constant, plus idempotence and the four mode equations.",
             "Trusted: TLC, the guards of the rewrite actions (which characters may be (un)escaped), the 26 base URLs of spec/data/bases.json."),
+    "C03": ("DESIGN.md section 4 / C03",
+            "Hierarchy invariant (n.c = n, f.c = f) model checked on the TLA+ reference models over the spelling machines; spellings (collision classes by construction) replayed into the three real functions; TLC trace spec tables weaker-scheme results against stronger-scheme results",
+            "TLC checks the composition equalities on the reference canonicalize/normalize/fingerprint models for every state of the spelling "
+            "machines, and validates on the real functions that spellings colliding under a weaker scheme collide under the stronger one (18 calls per spelling).",
+            "Trusted: TLC; collision classes are those the spelling machines construct (C02/C04/C06 rewrites), not arbitrary pairs."),
+    "C04": ("DESIGN.md section 4 / C04",
+            "TLA+ normalize spelling machine (one action per documented-irrelevant variation) with the reference normalize model as output register, invariant checked by TLC; reachable spellings rendered by TLC and replayed into normalize_url (default, quoted, platform_aware, redirection pre-step); TLC trace spec requires a constant output register per base",
+            "TLC explores the documented-irrelevant rewrites (scheme, userinfo, www/m/mobile/amp labels, amp-, default port, case, trailing slash, "
+            "index pages, plain fragments, tracking/AMP items at every position, permutations, &amp;, escapes, whitespace, controls) and checks the "
+            "reference model's output never changes; the real function is run on the same spellings and judged by the trace spec.",
+            "Trusted: TLC; the table of what is irrelevant (spec/data/normdata.json, transcribed from the documentation); rewrite guards."),
+    "C06": ("DESIGN.md section 4 / C06",
+            "fingerprint spelling machine (normalize machine + port, case flips, language labels, gl/hl items) with the reference fingerprint model as output register, invariant + NoSchemeAuthPort checked by TLC; spellings replayed into fingerprint_url under strip_suffix x platform_aware; TLC trace validation",
+            "TLC checks on the reference model that the fingerprint is invariant under the fingerprint-irrelevant rewrites and never carries "
+            "scheme/userinfo/port; the same spellings are run through the real fingerprint_url and judged by the trace spec (equality with the base's fingerprint, re-parse for scheme/auth/port).",
+            "Trusted: TLC; normdata.json; language labels limited to ISO-3166 codes as the code and README state; suffix swapping is covered by C08."),
     "C10": ("DESIGN.md section 4 / C10",
             "implementation-shaped TLA+ model of TrieDict checked by TLC against a finite-map spec (refinement, counters, observers); edge cover of the reachable state graph replayed into the real class; projections validated by TLC trace spec",
             "TLC explores every assignment history over a small key universe (full reachable graph), proves the trie model refines a "
